@@ -3,6 +3,7 @@ import logging
 from authlib.jose import JoseError
 from authlib.jose import jwt
 
+from ..base import invalid_error_characters
 from ..rfc6749 import BaseGrant
 from ..rfc6749 import InvalidClientError
 from ..rfc6749 import InvalidGrantError
@@ -12,6 +13,16 @@ from ..rfc6749 import UnauthorizedClientError
 from .assertion import sign_jwt_bearer_assertion
 
 log = logging.getLogger(__name__)
+
+
+def _safe_description(error):
+    # descriptions of JOSE errors may quote parts of the assertion
+    description = getattr(error, "description", None)
+    if description and not invalid_error_characters(description):
+        return description
+    return None
+
+
 JWT_BEARER_GRANT_TYPE = "urn:ietf:params:oauth:grant-type:jwt-bearer"
 
 
@@ -60,13 +71,20 @@ class JWTBearerGrant(BaseGrant, TokenEndpointMixin):
                 assertion, self.resolve_public_key, claims_options=self.CLAIMS_OPTIONS
             )
             claims.validate(leeway=self.LEEWAY)
-        except JoseError as e:
+        except (JoseError, ValueError) as e:
+            # ValueError: the key does not fit the algorithm of the assertion,
+            # or no key has the "kid" of the assertion
             log.debug("Assertion Error: %r", e)
-            raise InvalidGrantError(description=e.description) from e
+            raise InvalidGrantError(description=_safe_description(e)) from e
         return claims
 
     def resolve_public_key(self, headers, payload):
-        client = self.resolve_issuer_client(payload["iss"])
+        issuer = payload.get("iss")
+        if not issuer or not isinstance(issuer, str):
+            raise InvalidGrantError(description="Invalid 'iss' value in assertion")
+        client = self.resolve_issuer_client(issuer)
+        if not client:
+            raise InvalidGrantError(description="Invalid 'iss' value in assertion")
         return self.resolve_client_key(client, headers, payload)
 
     def validate_token_request(self):
@@ -117,6 +135,8 @@ class JWTBearerGrant(BaseGrant, TokenEndpointMixin):
         self.validate_requested_scope()
 
         subject = claims.get("sub")
+        if subject and not isinstance(subject, str):
+            raise InvalidGrantError(description="Invalid 'sub' value in assertion")
         if subject:
             user = self.authenticate_user(subject)
             if not user:
